@@ -1,5 +1,5 @@
 """Configuration of ./check C18: harness streams (name, n_quick, n_thorough), rule text, theorem names; MANIFEST texts."""
-PROP = {'streams': [('c18', 1500, 100000)],
+PROP = {'streams': [('c18', 1500, 100000), ('c18symc', 1500, 100000)],
  'definitional': False,
  'rule': 'one case = one generated schema world (gen_schema.rs: entity types with required/optional attributes, tags, memberOf, enums, action '
          'groups, per-action contexts with extension values, namespaces) with a conformant store accepted by Entities::from_entities(.., schema) '
@@ -14,8 +14,17 @@ PROP = {'streams': [('c18', 1500, 100000)],
          'policy-level matches-implies/equivalent/disjoint) is compared with Evaluator::evaluate / Authorizer::is_authorized on the same request and '
          'store (implementation-level), with the same on the store completed with default entities for absent uids, and, through the model line '
          '`(symcc (ps (effect outcome)..) (ps ..))`, with the prediction of the Lean skeleton from Rust\'s concrete outcomes; non-trivial = distinct '
-         '(policy, request, store, outcome)',
- 'theorems': ['vc_skeleton_correct',
+         '(policy, request, store, outcome). Stream c18symc (the compiler fragment modelled in Lean): one case = one random expression of the '
+         'fragment (bool/long/string/entity literals, principal/action/resource, ! - && || if == < <= + - *, longs near the i64 bounds) as the '
+         'when-clause of a static policy on a fixed schema and request; the real typechecker + compiler run through '
+         'CompiledPolicy::compile_with_custom_symenv on SymEnv::from_concrete_env, the compiled term is read back from the Debug output and must be '
+         'the literal some true / some false / none; it is compared with Evaluator::evaluate (implementation-level) and, through the model line '
+         '`(symc REQ (etys ..) EXPR)`, with the term the Lean compiler model folds; non-trivial = distinct (expression, principal, action)',
+ 'theorems': ['compile_correct_fragment',
+              'compilePolicy_discharged',
+              'compilePolicies_discharged',
+              'vc_skeleton_correct_fragment',
+              'vc_skeleton_correct',
               'neverErrors_refuted_iff_errors',
               'alwaysMatches_iff_satisfied',
               'neverMatches_iff_not_satisfied',
@@ -27,7 +36,15 @@ PROP = {'streams': [('c18', 1500, 100000)],
               'disjoint_iff',
               'opt_agrees',
               'isAuthorized_compiled'],
- 'assumptions': ['THE COMPILE STEP IS CONTRACT-ONLY: the compiler Expr -> Term (symcc/compiler.rs, symccopt/compiler.rs, extfun.rs, bitvec.rs, '
+ 'assumptions': ['A FIRST FRAGMENT OF THE COMPILE STEP IS MODELLED AND PROVED (Cedar/SymCompile.lean: Term with App nodes, factory not/and/or/eq/ite/'
+                 'bvneg/bvadd/bvsub/bvmul/bvslt/bvsle/bvnego/bvsaddo/bvssubo/bvsmulo/option_get/is_none/if_false/if_some, compile_prim/var/app1/app2/'
+                 'if/and/or and `compile` for literals, principal/action/resource, ! - && || if == < <= + - *): compile_correct_fragment proves that '
+                 'whenever the compiler accepts a fragment expression on the literal environment the term is some(lit v) / none exactly as evaluate '
+                 'gives v / errors, and vc_skeleton_correct_fragment discharges the compile contract for policies with fragment conditions (only the '
+                 'enforcer assumption remains). Ill-typed inputs are rejected by the compiler (TypeError) or, behind a constant guard / short-circuit, '
+                 'accepted and folded (examples in Thm/C18.lean); no statement is proved about WHEN the compiler rejects. Through the public API only '
+                 'typechecked boolean conditions are observable, so compiler rejections and non-boolean folded terms are not sampled on the Rust side',
+                 'OUTSIDE THE FRAGMENT THE COMPILE STEP IS CONTRACT-ONLY: the compiler Expr -> Term (symcc/compiler.rs, symccopt/compiler.rs, extfun.rs, bitvec.rs, '
                  'extension_types/), the term factory\'s constant folding on non-boolean terms, SymEnv::from_concrete_env and the enforcer\'s term '
                  'construction are NOT modelled in Lean; the theorems take as hypothesis that on a literal environment a policy\'s condition folds '
                  'to some true / some false / none exactly as `evaluate` gives true / false / error and that every enforcer assumption folds to '
@@ -39,14 +56,20 @@ PROP = {'streams': [('c18', 1500, 100000)],
                  'default entities must agree with SymCC) and reported as known-finding hits, never as agreement',
                  'templates / linked policies are not compiled (SymCC rejects them); request environments are those of the generated requests']}
 
-TEXT = ('Lean model `Cedar.SymCC`: the option-boolean skeleton of cedar-policy-symcc\'s verification-condition builders on a literal environment '
+TEXT = ('Lean model `Cedar.SymC` (Cedar/SymCompile.lean): a first fragment of the symbolic compiler and term factory (literals, principal/action/'
+ 'resource, ! - && || if == < <= + - * with overflow -> none; every branch of the mirrored factory functions, App nodes kept). Theorem '
+ '`compile_correct_fragment`: on the literal environment of any request, if the compiler accepts a fragment expression the term it builds is already '
+ 'the folded literal some(lit v) / none matching `evaluate`; `compilePolicy_discharged` / `vc_skeleton_correct_fragment`: for policies whose '
+ 'conditions are in the fragment the compile contract of the skeleton is discharged, so every verification condition states what the concrete '
+ 'authorizer does with only the enforcer assumption left; checked against Rust by stream c18symc (typechecker + real compiler, term read back). '
+ 'Lean model `Cedar.SymCC`: the option-boolean skeleton of cedar-policy-symcc\'s verification-condition builders on a literal environment '
  '(factory not/and/or/implies/eq/is_some/any_true on constants; authorizer.rs satisfied_policies/is_authorized; the eleven verify_* of '
  'symcc/verifier.rs and their symccopt/verifier.rs variants with the constant-false shortcut; check_unsat_asserts\' solver-free shortcut). '
  'Theorem `vc_skeleton_correct` (+ one theorem per condition), for arbitrary policy lists, requests and stores: GIVEN that each policy\'s compiled '
  'condition is the constant some true / some false / none matching its concrete outcome and that the enforcer assumptions are true, never-errors is '
  'refuted iff the policy errors, always-matches holds iff it is satisfied, never-matches iff it is not, and always-allows / always-denies / implies / '
  'equivalent / disjoint hold iff the corresponding relation between the decisions of the concrete authorizer model `Cedar.isAuthorized` (C01) holds; '
- 'the optimised builders give the same constants. THE COMPILE STEP (Expr -> Term, constant folding, SymEnv::from_concrete_env, enforcer) IS '
+ 'the optimised builders give the same constants. OUTSIDE THE FRAGMENT THE COMPILE STEP (Expr -> Term, constant folding, SymEnv::from_concrete_env, enforcer) IS '
  'CONTRACT-ONLY: it is not modelled and not proved; it is sampled by the differential run, which builds the literal environment from generated '
  'conformant requests and stores (extension values, tags, optional attributes present/absent, absent entities), compiles every strictly valid '
  'generated policy and policy-set pair with both compilers, requires every assert to be a literal constant, and compares each constant with the '
